@@ -71,6 +71,7 @@ struct Cfg {
   std::string sortlist;  // ares_set_sortlist string
   std::string hostaliases; // HOSTALIASES file content
   bool        local_bind = false;
+  bool        no_getsockname = false; // the application's socket functions have no agetsockname (it is optional): the local address is unknown to the library
   bool        socket_cbs = false;   // the application installs ares_set_socket_configure_callback() and ares_set_socket_callback() (either may reject a socket)
   int         ednspsz = 0;
   bool        whole_second_clock = false;
